@@ -7,11 +7,20 @@ from common import sh, COQ
 def coq_cases_noglob(ck, files, timeout=3000, jobs=8):
     """Like Check.coq_cases_parallel but without .glob output (the case files are large list literals; writing
     cross-reference data for every notation costs about a fifth of the time)."""
+    # private directory: coq/cases/<id> is wiped by every other invocation of the same check (a concurrent run would
+    # remove the .vo being written); the .v files are also copied to coq/cases/<id> for inspection
+    private = ck.mkscratch(prefix="verif-%s-cases-" % ck.pid)
     def one(name, text):
-        path = os.path.join(ck.casedir, name + ".v")
+        path = os.path.join(private, name + ".v")
         with open(path, "w") as f:
             f.write(text)
-        return sh(["coqc", "-noglob", "-R", COQ, "Verif", path], cwd=ck.casedir, timeout=timeout)
+        try:
+            os.makedirs(ck.casedir, exist_ok=True)
+            with open(os.path.join(ck.casedir, name + ".v"), "w") as f:
+                f.write(text)
+        except OSError:
+            pass
+        return sh(["coqc", "-noglob", "-R", COQ, "Verif", path], cwd=private, timeout=timeout)
     res = {}
     with ThreadPoolExecutor(max_workers=jobs) as ex:
         futs = {n: ex.submit(one, n, t) for n, t in files.items()}
